@@ -65,7 +65,130 @@ def rule_names(ck, facts):
     ck.floor(R, "name_collision_tests", n, 1)
 
 
+def rule_state_borrow(ck, facts):
+    """the generated program holds `&mut` of the state storage in a local named `state`; operand expressions may read
+    `self.memory`"""
+    from ..cfg import DefIndex, reachable
+    from ..rules.chainwalk import taint
+    from ..rules.invented import decode_template
+
+    R = "C18.borrow"
+    ck.rule(R, "in an arm of the Rust generator that writes `let state = self.get_current_statestorage();` into the generated program, no later formatted line that mentions `state.` interpolates an operand expression (the result of one of the generator's `*_expr` helpers, which can expand to a read of `self.memory`): rustc rejects the generated program (E0502, `self` borrowed mutably and immutably). Operands are bound to locals of the generated program first")
+    lang = facts.crate(roles.LANG)
+    em = None
+    for f in lang.fns:
+        if "::compiler::rustgen" not in f.path or f.kind == "promoted":
+            continue
+        cov = cover.coverage(facts, f, roles.MIR_INSTR)
+        if not cov or cov.primary is None or len(cov.primary_handled()) < 40:
+            continue
+        # the emitter is the dispatch whose family writes lines
+        lines = sum(1 for g in facts.family(roles.LANG, f.root) for _, t in g.calls() if (callee(t) or "").endswith("::line") and "CodeWriter" in (callee(t) or ""))
+        if em is None or lines > em[2]:
+            em = (f, cov, lines)
+    ck.require(R, em is not None and em[2] > 0, "anchor|rust-emitter", "the Rust generator's dispatch on mir::Instruction was not found")
+    if em is not None:
+        em = em[:2]
+    if em is None:
+        return
+    f, cov = em
+    n = 0
+    for v in sorted(cov.primary_handled()):
+        tb = cov.arm_target(v)
+        if tb is None:
+            continue
+        region = set(reachable(f, tb, stop=[cov.primary.block]))
+        members = [(f, region, None)]
+        # operand expressions computed in the arm (results of the generator's `*_expr` helpers) and what they flow into
+        pseeds = [t[6][0] for b, t in f.calls() if b in region and t[6] is not None and (callee(t) or "").split("::")[-1].endswith("_expr") and "rustgen" in (callee(t) or "")]
+        PT = set()
+        for sd in pseeds:
+            PT |= taint(f, [sd])
+        for b in region:
+            for st in f.stmts(b):
+                if st[KIND] == "a" and st[5][0] == "agg" and st[5][1][0] == "closure":
+                    g = facts.fn(st[5][1][1])
+                    if g is not None:
+                        caps = {i for i, o in enumerate(st[5][2]) if o[0] in ("cp", "mv") and o[1][0] in PT}
+                        members.append((g, None, caps))
+        # the helper results captured by the closures of the arm are parameters (upvars) there: seed by type String
+        # in closures, by helper calls in the arm itself
+        arm_has_state = False
+        bad = None
+        for g, reg, caps in members:
+            consts = []
+            for b, blk in enumerate(g.bb):
+                if blk["c"] or (reg is not None and b not in reg):
+                    continue
+                for st in blk["s"]:
+                    if st[KIND] == "a" and st[5][0] == "use" and st[5][1][0] == "c" and st[5][1][1] == "s":
+                        consts.append(st[5][1][2])
+                t = blk["t"]
+                if t[KIND] == "call":
+                    consts.extend(a[2] for a in t[5] if a[0] == "c" and a[1] == "s")
+            # string literals usually sit in promoted constants of g
+            for pf in lang.fns:
+                if pf.kind == "promoted" and pf.path.startswith(g.path + "::promoted["):
+                    for _, st in pf.all_stmts():
+                        if st[KIND] == "a" and st[5][0] == "use" and st[5][1][0] == "c" and st[5][1][1] == "s":
+                            consts.append(st[5][1][2])
+            if not any("let state = self.get_current_statestorage();" in c for c in consts if isinstance(c, str)):
+                continue
+            arm_has_state = True
+            di = DefIndex(g)
+            seeds = []
+            for b, t in g.calls():
+                if reg is not None and b not in reg:
+                    continue
+                c = callee(t) or ""
+                if c.split("::")[-1].endswith("_expr") and "rustgen" in c and t[6] is not None:
+                    seeds.append(t[6][0])
+            T = set()
+            for sd in seeds:
+                T |= taint(g, [sd])
+            if caps:
+                # captured operand expressions: locals read from the tainted fields of the closure environment (_1)
+                for _, st in g.all_stmts():
+                    if st[KIND] != "a" or st[5][0] not in ("use", "ref"):
+                        continue
+                    src = st[5][1] if st[5][0] == "ref" else (st[5][1][1] if st[5][1][0] in ("cp", "mv") else None)
+                    if src and src[0] == 1:
+                        idx = [e[1] for e in src[1] if isinstance(e, list) and e[0] == "f"]
+                        if idx and idx[0] in caps:
+                            T |= taint(g, [st[4][0]])
+            for b, t in g.calls():
+                if reg is not None and b not in reg:
+                    continue
+                c = callee(t) or ""
+                if not (c.split("::")[-1] == "new" and "fmt::Arguments" in c and len(t[5]) >= 2):
+                    continue
+                rr = di.resolve(t[5][0])
+                for _k in range(4):
+                    if rr[0] == "rv" and rr[1][5][0] in ("ref", "raw"):
+                        rr = di.resolve(["cp", [rr[1][5][1][0], []]])
+                    else:
+                        break
+                tmpl = decode_template(rr[1][3]) if rr[0] == "const" and rr[1][1] == "o" else None
+                if not tmpl or "state." not in tmpl:
+                    continue
+                a1 = t[5][1]
+                tainted = a1[0] in ("cp", "mv") and a1[1][0] in T
+                if tainted:
+                    bad = (g, t, tmpl)
+        if not arm_has_state:
+            continue
+        n += 1
+        key = "arm|%s" % v
+        if bad is None:
+            ck.ok(R, key)
+        else:
+            g, t, tmpl = bad
+            ck.bad(R, key, "the Rust generator's arm for %s writes `%s` with an operand expression interpolated while the generated program holds `state` (= &mut of the state storage): when the operand reads `self.memory` (e.g. a tuple element as the operand, `mem(t.0)`) rustc rejects the generated program with E0502" % (v, tmpl.replace("{}", "…")[:80]), g.where(t))
+    ck.floor(R, "arms_borrowing_state", n, 4)
+
+
 def run(ck, facts, tier):
+    rule_state_borrow(ck, facts)
     cg = CallGraph(facts, ["mimium_lang"])
     rule_cover(ck, facts, cg)
     ck.require("C18.prims", "mimium_rust_template" in facts.files, "anchor|template-facts", "the Rust runtime template did not compile stand-alone under the extractor (see template-build.log); its primitives cannot be compared")
